@@ -348,6 +348,18 @@ def check_process_parent(ctx, cls, lc, seen):
         ctx.finding('R3', gr.short, 'slot-shape-at-exit:' + ','.join(sorted(sh)),
                     f'{gr.short} can return with the outcome slot holding {what} although the worker is dead: has_error is None/garbled on a dead worker',
                     where=loc(gr, gr.node))
+    # the fallback outcome is only taken after the outcome channel has been read (a delivered outcome is never discarded)
+    reads = {n.id for n in g.nodes if n.stmt is not None and n.part == 'eval' and any(
+        last_attr(c) in ('get', 'recv', 'get_nowait') and (receiver(c) or '') == f'self.{lc.outcome_channel}.parent_end' for c in n.calls())}
+    ctx.check('R3', f'{gr.short}: reads the outcome channel', bool(reads), gr.short, 'outcome-channel-not-read', f'{gr.short} never reads the result pipe', where=loc(gr, gr.node))
+    dom = g.dominators(edge_ok=lambda e: e.kind != 'async')
+    for n in g.nodes:
+        if n.stmt is not None and n.part in (None, 'store') and isinstance(n.stmt, ast.Assign) and any(is_self_attr(t, lc.slot) for t in n.stmt.targets) \
+                and isinstance(n.stmt.value, ast.Tuple) and norm(n.stmt.value) == '(False, None)':
+            ok = bool(dom.get(n.id, set()) & reads)
+            ctx.check('R3', f'{gr.short}: the (False, None) fallback at line {n.line} is taken only after the result pipe has been read', ok, gr.short, 'fallback-without-reading-the-pipe',
+                      f'{gr.short} falls back to (False, None) on a path that never looked into the result pipe: an outcome the child delivered before it died (e.g. it returned normally and '
+                      'its interpreter exited non-zero, or a terminate landed in its clean-up) is discarded - has_error True, error None for work that finished', where=loc(gr, n.stmt))
     # RemoteServerProcess-like overrides of _start that store to the slot
     for c in ctx.prog.classes.values():
         if lc.cls in c.mro() or c is lc.cls:
